@@ -1,7 +1,9 @@
 /-
   Props/C04All.lean — the module audited for C04: Props/C04.lean (shape, record sections), Props/C04Slider.lean
-  (hit-object lines of all four kinds, the [HitObjects] block) and Props/C04Timing.lean (the [TimingPoints] block).
-  All three are in namespace `Rosu.C04`.
+  (hit-object lines of all four kinds, the [HitObjects] block) and Props/C04Timing.lean (the [TimingPoints] block) and
+  Props/C04Decoded.lean (the `Decoded` invariant of the record sections; the record theorems for every decoded map).
+  All four are in namespace `Rosu.C04`.
 -/
 import RosuModel.Props.C04Slider
 import RosuModel.Props.C04Timing
+import RosuModel.Props.C04Decoded
